@@ -89,6 +89,12 @@ func NewPackageDeployer(
 	}
 }
 
+// WithUncachedClient sets the client used to check uniqueInScope constraints against the API server.
+func (l *PackageDeployer) WithUncachedClient(uncachedClient client.Client) *PackageDeployer {
+	l.uncachedClient = uncachedClient
+	return l
+}
+
 // Returns a new cluster-scoped loader for the ClusterPackage API.
 func NewClusterPackageDeployer(
 	c client.Client,
@@ -265,6 +271,10 @@ func setInvalidConditionBasedOnLoadError(pkg adapters.GenericPackageAccessor, er
 
 var uniqueLock = sync.Mutex{}
 
+// ErrNoUncachedClient is returned when a uniqueInScope constraint has to be checked,
+// but the deployer was set up without a client to list existing packages with.
+var ErrNoUncachedClient = errors.New("uniqueInScope constraint can not be checked: no uncached client configured")
+
 func validateUnique(
 	ctx context.Context, uncachedClient client.Client,
 	apiPkg adapters.GenericPackageAccessor, manifest *manifests.PackageManifest,
@@ -278,6 +288,9 @@ func validateUnique(
 	}
 	if !hasUnique {
 		return nil, nil
+	}
+	if uncachedClient == nil {
+		return nil, ErrNoUncachedClient
 	}
 
 	uniqueLock.Lock()
